@@ -541,4 +541,159 @@ def ArgLoc.asVa : ArgLoc → Option VaLoc
   | .stack off => some (.overflow off)
   | _ => none
 
+/-! ## emitted text (for the asm-text tie): the lines `chibicc -S` prints for a call and for a function's entry/return -/
+
+open ChibiVerif.Gen.Templates (argreg8 argreg16 argreg32 argreg64)
+
+def regName (tbl : List String) (r : Nat) : String := tbl.getD r "?"
+
+def countUp (n : Nat) : List Nat := List.range n
+def countDown (hi lo : Nat) : List Nat := ((List.range (hi - lo)).map (· + lo)).reverse   -- hi-1, .., lo
+
+/-- second loop of `assign_lvar_offsets`: `(size, align)` of the locals without an offset, in list order → offsets, stack_size -/
+def lvarOffsets : Nat → List (Nat × Nat) → List Int
+  | _, [] => []
+  | bottom, (sz, al) :: rest =>
+    let b := alignTo (bottom + sz) al
+    (-(b : Int)) :: lvarOffsets b rest
+
+def lvarBottom : Nat → List (Nat × Nat) → Nat
+  | bottom, [] => bottom
+  | bottom, (sz, al) :: rest => lvarBottom (alignTo (bottom + sz) al) rest
+
+/-- push_args2 for one argument, after `gen_expr` left the value in rax / xmm0 / st0 -/
+def pushLines : ATy → List String
+  | .agg _ sz _ _ =>
+    s!"  sub ${alignTo sz 8}, %rsp" ::
+      (countUp sz).flatMap (fun (i : Nat) => [s!"  mov {i}(%rax), %r10b", s!"  mov %r10b, {i}(%rsp)"])
+  | .flt | .dbl => ["  sub $8, %rsp", "  movsd %xmm0, (%rsp)"]
+  | .ldbl => ["  sub $16, %rsp", "  fstpt (%rsp)"]
+  | _ => ["  push %rax"]
+
+def popLines : Pop → List String
+  | .gp n => [s!"  pop {regName argreg64 n}"]
+  | .fp n => [s!"  movsd (%rsp), %xmm{n}", "  add $8, %rsp"]
+
+def selectRev : List ATy → List Bool → Bool → List ATy
+  | t :: ts, f :: fs, want => selectRev ts fs want ++ (if f == want then [t] else [])
+  | _, _, _ => []
+
+/-- `copy_ret_buffer(var)` with `var->offset = off` -/
+def copyRetBufferLines (ty : ATy) (off : Int) : List String :=
+  let sz := ty.size
+  let first :=
+    if hasFlonum1 ty then [if sz = 4 then s!"  movss %xmm0, {off}(%rbp)" else s!"  movsd %xmm0, {off}(%rbp)"]
+    else (countUp (min 8 sz)).flatMap (fun (i : Nat) => [s!"  mov %al, {off + i}(%rbp)", "  shr $8, %rax"])
+  let gp := if hasFlonum1 ty then 0 else 1
+  let fp := if hasFlonum1 ty then 1 else 0
+  let second :=
+    if sz > 8 then
+      if hasFlonum2 ty then
+        [if sz = 12 then s!"  movss %xmm{fp}, {off + 8}(%rbp)" else s!"  movsd %xmm{fp}, {off + 8}(%rbp)"]
+      else
+        let reg1 := if gp = 0 then "%al" else "%dl"
+        let reg2 := if gp = 0 then "%rax" else "%rdx"
+        ((countUp (min 16 sz)).filter (· ≥ 8)).flatMap (fun (i : Nat) => [s!"  mov {reg1}, {off + i}(%rbp)", s!"  shr $8, {reg2}"])
+    else []
+  first ++ second
+
+/-- the lines of one `ND_FUNCALL` that manipulate the stack and the argument registers (argument evaluation itself,
+    `gen_expr(node->lhs)` and `.loc` lines left out).  `retOff` = `node->ret_buffer->offset`. -/
+def callLines (depth : Nat) (s : Sig) (retOff : Int) : List String :=
+  let large := retLarge s.ret
+  let (st, flags) := classifyArgs large s.params
+  let pad := padSlots depth st
+  let pops := (popPhase large s.params).2
+  (if pad = 1 then ["  sub $8, %rsp"] else [])
+  ++ (selectRev s.params flags true).flatMap pushLines
+  ++ (selectRev s.params flags false).flatMap pushLines
+  ++ (if large then [s!"  lea {retOff}(%rbp), %rax", "  push %rax", "  pop %rdi"] else [])
+  ++ (pops.flatMap (fun ps => ps.flatMap popLines))
+  ++ ["  mov %rax, %r10", s!"  mov ${callerAl s}, %rax", "  call *%r10", s!"  add ${(st + pad) * 8}, %rsp"]
+  ++ (match retNormalise s.ret with
+      | some l => ["  " ++ l]
+      | none =>
+        match s.ret with
+        | some ty => if ty.isAgg && decide (ty.size ≤ 16) then copyRetBufferLines ty retOff ++ [s!"  lea {retOff}(%rbp), %rax"] else []
+        | none => [])
+
+def storeLines (off : Int) : Store → List String
+  | .fp r rel sz => [if sz = 4 then s!"  movss %xmm{r}, {off + rel}(%rbp)" else s!"  movsd %xmm{r}, {off + rel}(%rbp)"]
+  | .gp r rel sz =>
+    if sz = 1 then [s!"  mov {regName argreg8 r}, {off + rel}(%rbp)"]
+    else if sz = 2 then [s!"  mov {regName argreg16 r}, {off + rel}(%rbp)"]
+    else if sz = 4 then [s!"  mov {regName argreg32 r}, {off + rel}(%rbp)"]
+    else if sz = 8 then [s!"  mov {regName argreg64 r}, {off + rel}(%rbp)"]
+    else (countUp sz).flatMap (fun (i : Nat) => [s!"  mov {regName argreg8 r}, {off + rel + i}(%rbp)", s!"  shr $8, {regName argreg64 r}"])
+
+/-- offsets of the callee's locals when its body declares none: `fn->locals` = __alloca_size__, __va_area__ (if variadic),
+    hidden pointer (if any), parameters.  Result: (alloca offset, va_area offset, offsets of `calleeParams`, stack_size) -/
+def calleeFrame (s : Sig) : Int × Int × List Int × Nat :=
+  let ps := calleeParams s
+  let offs := calleeOffsets ps
+  let regParams := (ps.zip offs).filter (fun (_, o) => o.isNone) |>.map (fun (t, _) => (t.size, t.align))
+  let locals := [(8, 8)] ++ (if s.variadic then [(200, 16)] else []) ++ regParams
+  let lo := lvarOffsets 0 locals
+  let alloca := lo.getD 0 0
+  let va := if s.variadic then lo.getD 1 0 else 0
+  let regOffs := lo.drop (if s.variadic then 2 else 1)
+  let rec merge : List (Option Nat) → List Int → List Int
+    | some o :: os, rs => (o : Int) :: merge os rs
+    | none :: os, r :: rs => r :: merge os rs
+    | _, _ => []
+  (alloca, va, merge offs regOffs, alignTo (lvarBottom 0 locals) 16)
+
+def vaLines (s : Sig) (off : Int) : List String :=
+  let v := vaInit s
+  [s!"  movl ${v.gpOffset}, {off}(%rbp)", s!"  movl ${v.fpOffset}, {off + 4}(%rbp)",
+   s!"  movq %rbp, {off + 8}(%rbp)", s!"  addq ${v.overflow + 16}, {off + 8}(%rbp)",
+   s!"  movq %rbp, {off + 16}(%rbp)", s!"  addq ${off + 24}, {off + 16}(%rbp)"]
+  ++ ((countUp 6).map (fun (i : Nat) => s!"  movq {regName argreg64 i}, {off + 24 + 8 * i}(%rbp)"))
+  ++ ((countUp 8).map (fun (i : Nat) => s!"  movsd %xmm{i}, {off + 72 + 16 * i}(%rbp)"))
+
+/-- the prologue of `emit_text` -/
+def prologueLines (s : Sig) : Except Abort (List String) := do
+  let (alloca, va, poffs, stackSize) := calleeFrame s
+  let stores ← prologueStores s
+  pure (["  push %rbp", "  mov %rsp, %rbp", s!"  sub ${stackSize}, %rsp", s!"  mov %rsp, {alloca}(%rbp)"]
+    ++ (if s.variadic then vaLines s va else [])
+    ++ ((stores.zip poffs).flatMap (fun (ss, o) => ss.flatMap (storeLines o))))
+
+/-- `var->offset` of the named parameters (what `&p` prints as `lea N(%rbp), %rax`) -/
+def paramOffsets (s : Sig) : List Int :=
+  let (_, _, poffs, _) := calleeFrame s
+  if retLarge s.ret then poffs.drop 1 else poffs
+
+/-- `copy_struct_reg()` -/
+def copyStructRegLines (ty : ATy) : List String :=
+  let sz := ty.size
+  let first :=
+    if hasFlonum ty 0 8 0 then [if sz = 4 then "  movss (%rdi), %xmm0" else "  movsd (%rdi), %xmm0"]
+    else "  mov $0, %rax" :: (countDown (min 8 sz) 0).flatMap (fun (i : Nat) => ["  shl $8, %rax", s!"  mov {i}(%rdi), %al"])
+  let gp := if hasFlonum ty 0 8 0 then 0 else 1
+  let fp := if hasFlonum ty 0 8 0 then 1 else 0
+  let second :=
+    if sz > 8 then
+      if hasFlonum ty 8 16 0 then [if sz = 4 then s!"  movss 8(%rdi), %xmm{fp}" else s!"  movsd 8(%rdi), %xmm{fp}"]
+      else
+        let reg1 := if gp = 0 then "%al" else "%dl"
+        let reg2 := if gp = 0 then "%rax" else "%rdx"
+        s!"  mov $0, {reg2}" :: (countDown (min 16 sz) 8).flatMap (fun (i : Nat) => [s!"  shl $8, {reg2}", s!"  mov {i}(%rdi), {reg1}"])
+    else []
+  "  mov %rax, %rdi" :: (first ++ second)
+
+/-- the lines `ND_RETURN` adds after `gen_expr(node->lhs)` for a struct/union value -/
+def returnLines (s : Sig) : List String :=
+  match s.ret with
+  | some ty =>
+    if ty.isAgg then
+      if ty.size ≤ 16 then copyStructRegLines ty
+      else
+        let (_, _, poffs, _) := calleeFrame s
+        s!"  mov {poffs.getD 0 0}(%rbp), %rdi"
+          :: (countUp ty.size).flatMap (fun (i : Nat) => [s!"  mov {i}(%rax), %dl", s!"  mov %dl, {i}(%rdi)"])
+          ++ ["  mov %rdi, %rax"]
+    else []
+  | none => []
+
 end ChibiVerif.CallConv
